@@ -379,6 +379,15 @@ bus_driver_send_service_acquired (DBusConnection *connection,
     }
 }
 
+#ifdef DBUS_VERIF
+/* Verification hook: lets a harness (re)seed the process-wide unique-name
+ * counters, so that every fresh in-process bus starts at :1.0 and the
+ * counter wrap-around can be reached. */
+dbus_bool_t bus_verif_unique_name_seed_pending = FALSE;
+int bus_verif_unique_name_seed_major = 0;
+int bus_verif_unique_name_seed_minor = 0;
+#endif
+
 static dbus_bool_t
 create_unique_client_name (BusRegistry *registry,
                            DBusString  *str)
@@ -393,6 +402,15 @@ create_unique_client_name (BusRegistry *registry,
   static int next_major_number = 0;
   static int next_minor_number = 0;
   int len;
+
+#ifdef DBUS_VERIF
+  if (bus_verif_unique_name_seed_pending)
+    {
+      next_major_number = bus_verif_unique_name_seed_major;
+      next_minor_number = bus_verif_unique_name_seed_minor;
+      bus_verif_unique_name_seed_pending = FALSE;
+    }
+#endif
 
   len = _dbus_string_get_length (str);
 
